@@ -4,12 +4,15 @@
 # the crate's own tests pass with it; then runs /verif's check for <ID> against it in a scratch copy.
 # Writes /verif/seeded/<ID>/{patch.diff,demo,meta.json}.
 ID="$1"; CRATE="$2"; DEMO="$3"; shift 3
-WT=/tmp/seed-$ID; export CARGO_TARGET_DIR=/var/tmp/seed-target CARGO_NET_OFFLINE=true
+WT=/tmp/seed-$ID; export CARGO_TARGET_DIR=/var/tmp/seed-verify-$ID CARGO_NET_OFFLINE=true
+# private target dir per seed (a shared one mixes artifacts of different worktrees); seeded from the shared cache for the registry deps
+if [ ! -d "$CARGO_TARGET_DIR" ]; then cp -a /var/tmp/seed-target "$CARGO_TARGET_DIR" 2>/dev/null || mkdir -p "$CARGO_TARGET_DIR"; fi
 OUT=/verif/seeded/$ID; mkdir -p $OUT
 cd $WT || exit 2
 cp SEED/patch.diff $OUT/patch.diff
 cp SEED/*.rs $OUT/ 2>/dev/null; cp SEED/notes.md $OUT/notes.md 2>/dev/null
 log=$OUT/verify.log; : > $log
+find crates -name '*.rs' | xargs touch
 git checkout -q -- . ; git clean -fdq -e SEED -e "crates/*/tests/seed_*" >/dev/null 2>&1
 echo "== demo WITHOUT patch" >> $log
 cargo test -p $CRATE --offline --test $DEMO "$@" >> $log 2>&1; r_without=$?
@@ -28,4 +31,5 @@ echo "== /verif check $ID quick against patched scratch" >> $log
 echo "check_rc=$rc" >> $log
 grep -E "^VIOLATION|violation sub=|^INCONCLUSIVE" $OUT/check_quick.out | head -3 >> $log
 /verif/tools/scratch.sh rm seed$ID
+rm -rf "$CARGO_TARGET_DIR"
 tail -4 $log
